@@ -2648,23 +2648,8 @@ def invalid_escape_sequence(source: str) -> str:
     """
     # Recognized esc sequences from python.org documentation, Jan 2023
     # https://docs.python.org/3/reference/lexical_analysis.html#string-and-bytes-literals
-    valid_escape_sequences = (
-        r"\\",
-        r"\'",
-        r"\"",
-        r"\a",
-        r"\b",
-        r"\f",
-        r"\n",
-        r"\r",
-        r"\t",
-        r"\v",
-        r"\ooo",
-        r"\xhh",
-        r"\N",
-        r"\u",
-        r"\U",
-    )
+    # A backslash followed by an octal digit, x, N, u, U or a line break also starts an escape sequence
+    valid_escape_sequence = re.compile(r"\\[\\'\"abfnrtv0-7xNuU\n]")
 
     root = core.parse(source)
 
@@ -2675,7 +2660,7 @@ def invalid_escape_sequence(source: str) -> str:
             code
             and code[0] in "'\""
             and "\\" in code
-            and not any(sequence in code for sequence in valid_escape_sequences)
+            and not valid_escape_sequence.search(code)
         ):
             yield node, "r" + code
 
